@@ -66,5 +66,18 @@ def canaries(tier):
 
 
 def native_replay(ob):
-    from props.base import run_native
+    from props.base import run_native, model_floats
+    if '/history[' in ob['name'] and ob.get('model'):
+        m = model_floats(ob['model'])
+        qs = []
+        k = 0
+        while any(n.startswith(f'a{k}!') for n in m):
+            a = [v for n, v in m.items() if n.startswith(f'a{k}!')][0]
+            b = [v for n, v in m.items() if n.startswith(f'b{k}!')][0]
+            qs.append([a, b])
+            k += 1
+        if qs:
+            r = run_native('history', {'queries': qs}, timeout=120)
+            if r.get('reproduced'):
+                return r
     return run_native('c03')
